@@ -124,4 +124,41 @@ theorem cartesian_nodup : ∀ (Ts : List Table), (∀ T ∈ Ts, T.Nodup) → (ca
       injection hcontra with h1 _
       exact hab h1.symm
 
+theorem forall₂_getElem_opt {α β : Type} {R : α → β → Prop} {l1 : List α} {l2 : List β} (hf : List.Forall₂ R l1 l2) :
+    ∀ (k : Nat) (b : β), l2[k]? = some b → ∃ a, l1[k]? = some a ∧ R a b := by
+  induction hf with
+  | nil => intro k b h; simp at h
+  | cons h1 h2 ih =>
+    intro k b h
+    cases k with
+    | zero =>
+      simp only [List.getElem?_cons_zero, Option.some.injEq] at h; subst h
+      exact ⟨_, rfl, h1⟩
+    | succ k =>
+      simp only [List.getElem?_cons_succ] at h ⊢
+      exact ih k b h
+
+theorem filterMap_eq_map_of {α β : Type} (f : α → Option β) (g : α → β) : ∀ (l : List α), (∀ x ∈ l, f x = some (g x)) →
+    l.filterMap f = l.map g
+  | [], _ => rfl
+  | a :: t, h => by
+    rw [List.filterMap_cons_some (h a (by simp)), List.map_cons,
+      filterMap_eq_map_of f g t (fun x hx => h x (List.mem_cons_of_mem _ hx))]
+
+/-- every joined tuple has a component for structure `k`, and it is a row of that structure -/
+theorem component_mem (m : List StdCol) (Ts : List Table) (k : Nat) (T : Table) (hk : Ts[k]? = some T)
+    (tup : List Row) (h : tup ∈ joinRows m Ts) : ∃ r, tup[k]? = some r ∧ r ∈ T := by
+  unfold joinRows at h
+  rw [List.mem_filter, mem_cartesian] at h
+  exact forall₂_getElem_opt h.1 k T hk
+
+/-- the rows of structure `k` in the intersection: one per joined tuple, in the order of the join -/
+theorem component_eq_map (m : List StdCol) (Ts : List Table) (k : Nat) (T : Table) (hk : Ts[k]? = some T) :
+    component (joinRows m Ts) k = (joinRows m Ts).map (fun tup => tup.getD k default) := by
+  unfold component
+  apply filterMap_eq_map_of
+  intro tup htup
+  obtain ⟨r, hr, _⟩ := component_mem m Ts k T hk tup htup
+  simp [hr, List.getD_eq_getElem?_getD]
+
 end JoinProofs
